@@ -211,7 +211,7 @@ struct Client
 	std::vector<Resp> frames;
 	std::vector<char> rbuf;
 	bool evaluated = false;
-	std::int64_t t_started = -1, t_connected = -1, t_eof = -1;
+	std::int64_t t_started = -1, t_connected = -1, t_eof = -1, last_write_t = -1;
 };
 
 struct Scenario
@@ -576,7 +576,7 @@ struct World
 			if (c.pos >= total && ((c.policy == P_EOF_PARTIAL && tail_ok) || c.policy == P_ABANDON))
 			{
 				// the client goes away: whatever was answered so far is judged now
-				if (c.policy == P_EOF_PARTIAL) evaluate(c, !stop_fired, true);
+				if (c.policy == P_EOF_PARTIAL) evaluate(c, strict_for(c), true);
 				else { c.evaluated = true; R().count("clients_abandoning_without_reading"); }
 				do_close(c);
 			}
@@ -586,6 +586,7 @@ struct World
 		auto it = std::upper_bound(c.cuts.begin(), c.cuts.end(), c.pos);
 		if (it != c.cuts.end() && *it < end) end = *it;
 		c.w_pending = true;
+		c.last_write_t = now_ns();
 		++c.pieces;
 		Client* cp = &c;
 		VLOG("  [%" PRId64 "] client %d writes [%zu,%zu)", now_ns(), c.id, c.pos, end);
@@ -644,8 +645,15 @@ struct World
 		R().count((std::string("responses_verified_") + kind_name[e.kind]).c_str());
 	}
 
+	// A connection is judged against the whole model (count, content, end state at quiescence) unless
+	// the statement leaves its fate open: stop() says nothing about clients whose connect had not
+	// completed when it was called (still in the backlog, or on the way). A connection that was
+	// established before stop() is an ordinary connection: the keep-alive / close rule and "one response
+	// per request" hold for it whatever is sent after the stop.
+	bool strict_for(Client const& c) const { return !stop_fired || (c.connected && !c.connected_after_stop); }
+
 	// strict: the whole model applies (count, end state); otherwise only "what was received is a
-	// correct prefix" (connections that overlap a stop())
+	// correct prefix"
 	void evaluate(Client& c, bool strict, bool client_leaving = false)
 	{
 		c.evaluated = true;
@@ -681,8 +689,19 @@ struct World
 					viol(std::string("kept-open:") + c.close_why, who + fmt("the connection is still open at quiescence after %zu response(s)", n));
 				if (c.end_state == E_OPEN && !c.eof) R().count("connections_kept_open_verified");
 				if ((c.end_state == E_SERVER_CLOSES || c.end_state == E_MALFORMED_CLOSE) && c.eof) R().count("connections_closed_by_server_verified");
+				if (stop_fired && c.t_connected <= stop_t)
+				{
+					// established before stop(), judged after it
+					if (c.end_state == E_OPEN && !c.eof) R().count("connections_kept_open_across_stop_verified");
+					if ((c.end_state == E_SERVER_CLOSES || c.end_state == E_MALFORMED_CLOSE) && c.eof && c.t_eof > stop_t)
+					{
+						R().count("connections_closed_by_server_after_stop_verified");
+						if (c.last_write_t > stop_t) R().count("connections_closed_after_stop_with_requests_sent_after_stop");
+					}
+				}
 			}
 			R().count("connections_judged_strictly");
+			if (stop_fired) R().count("connections_judged_strictly_after_stop");
 		}
 		else R().count("connections_judged_as_prefix_only");
 		if (c.end_state == E_STALLED && n <= m && !trailing) R().count("stalled_requests_unanswered");
@@ -714,7 +733,7 @@ struct World
 				Client& c = *cp;
 				if (c.connected && !c.closed)
 				{
-					if (!c.evaluated) evaluate(c, !stop_fired);
+					if (!c.evaluated) evaluate(c, strict_for(c));
 					do_close(c);
 					acted = true;
 				}
@@ -868,8 +887,8 @@ std::uint64_t cut_cases_of(std::size_t len)
 	return p + p * (p - 1) / 2;
 }
 
-int const N_STOP_SCEN = 6;
-int const STOP_STEPS = 260;
+int const N_STOP_SCEN = 10;
+int const STOP_STEPS = 320;
 
 Plan plan(Args const& a)
 {
@@ -940,11 +959,18 @@ void run_case(Args const& a, std::uint64_t c)
 	{
 		int const s = int(c / STOP_STEPS);
 		Scenario sc;
-		// scenarios 0-3: pipelined requests + following client (table above); 4, 5: with a second client already waiting
-		build_short_scenario(s < 4 ? (s == 3 ? 6 : s) : (s == 4 ? 0 : 2), sc);
-		if (s >= 4 && sc.clients.size() > 1) { sc.clients[1]->overlap = true; sc.clients[1]->start_delay_ns = 2000000; }
-		sc.clients[0]->cuts = {5, sc.clients[0]->req_end[0] + 2};
-		sc.clients[0]->delay_ns = {1000000, 3000000};
+		// (short scenario of the table above, second client already waiting in the backlog?, pipelining depth):
+		// the first client's requests are cut into pieces spaced in time and, with depth 1, gated by the
+		// responses, so for most k it keeps sending after the stop; the table has connections the server
+		// must keep open (0, 1, 6) and must close (keep-alive off 2; Connection: close 3; malformed 5)
+		static int const tab[N_STOP_SCEN][3] = {{0, 0, 1000}, {1, 0, 1}, {2, 0, 1000}, {3, 0, 1000}, {5, 0, 1000}, {6, 0, 1000}, {0, 1, 1}, {2, 1, 1000}, {5, 0, 1}, {7, 0, 1000}};
+		build_short_scenario(tab[s][0], sc);
+		if (tab[s][1] && sc.clients.size() > 1) { sc.clients[1]->overlap = true; sc.clients[1]->start_delay_ns = 2000000; }
+		Client& c0 = *sc.clients[0];
+		c0.depth = tab[s][2];
+		c0.cuts = {5, c0.req_end[0] + 2};
+		c0.delay_ns = {1000000, 3000000};
+		if (c0.req_end.size() > 1 && c0.req_end[1] - 3 > c0.cuts.back()) { c0.cuts.push_back(c0.req_end[1] - 3); c0.delay_ns.push_back(7000000); }
 		sc.stop_at = std::int64_t(c % STOP_STEPS);
 		run_scenario(sc, c % 97 == 0, fmt("stops scenario %d: ", s));
 		g_quiet = nullptr;
